@@ -171,7 +171,14 @@ class CallMixin:
                     st.env[k] = join(st.env[k], val)
 
     def summarise(self, fi: FuncInfo, recv, recv_cls, args, kwitems, frame, n) -> Summary:
-        key = (fi.qname, fi.kind, recv, args, kwitems)
+        key0 = (fi.qname, fi.kind, recv, args, kwitems)
+        cached = self.memo.get(key0)
+        if cached is not None:
+            self.stats["memo_hits"] += 1
+            return cached
+        # summaries that hand out objects allocated inside are specific to the chain of call sites (allocation sites
+        # are named by it): they are cached per call-site key
+        key = key0 + (self._callsite_key(frame, n),)
         cached = self.memo.get(key)
         if cached is not None:
             self.stats["memo_hits"] += 1
@@ -214,9 +221,17 @@ class CallMixin:
             del self.active[akey]
         used.discard(akey)
         if not used:
-            self.memo[key] = summ
+            self.memo[key if _allocates(summ) else key0] = summ
         self.stats["functions_analysed"] += 1
         return summ
+
+    def _callsite_key(self, caller, n) -> str:
+        """allocation sites are distinguished by (a suffix of) the chain of call sites that leads to them"""
+        if caller is None or n is None or caller.depth + 1 > 4:
+            return ""
+        segs = [x for x in caller.callsite_key.split("<") if x]
+        segs.append("%s:%d" % (caller.qname.rsplit(".", 1)[-1], getattr(n, "lineno", 0)))
+        return "".join("<" + x for x in segs[-3:])
 
     def bind_params(self, fi: FuncInfo, recv, args, kwargs, st: State, fr: Frame, entry=False):
         a = fi.node.args
@@ -269,9 +284,7 @@ class CallMixin:
     def run_function(self, fi: FuncInfo, recv, recv_cls, args, kwargs, caller: Frame, n, entry=False) -> Summary:
         mod = self.prog.modules[fi.module]
         depth = (caller.depth + 1) if caller is not None else 0
-        ck = ""
-        if caller is not None and n is not None and depth <= 2:
-            ck = "<%s:%d" % (caller.qname.rsplit(".", 1)[-1], getattr(n, "lineno", 0))
+        ck = self._callsite_key(caller, n)
         fr = Frame(fi, mod, recv_cls or (fi.cls.qname if fi.cls is not None and recv is not None else None), recv,
                    depth, ck)
         if fi.cls is not None and fi.kind in ("method", "property", "setter"):
@@ -931,6 +944,24 @@ class CallMixin:
             return AV(types=frozenset({"extobj"}), deps=deps, alias=fresh)
         self.unresolved(frame, st, n, "external call %s" % name)
         return AV(types=None, deps=deps)
+
+
+def _allocates(summ) -> bool:
+    """Does the summary expose objects allocated during the call (returned or stored into operands)?"""
+    def fresh_in(av, depth=0):
+        if av is None or depth > 3:
+            return False
+        if any(l[0].startswith("fresh:") for l in av.alias):
+            return True
+        if fresh_in(av.elem, depth + 1) or fresh_in(av.key, depth + 1):
+            return True
+        return any(fresh_in(i, depth + 1) for i in (av.items or ()))
+    if fresh_in(summ.ret):
+        return True
+    for locs, added, how in summ.mutations:
+        if fresh_in(added):
+            return True
+    return False
 
 
 def _arity_ok(fi, nargs, kwargs) -> bool:
